@@ -26,7 +26,7 @@ DECIDING_MONITORS = ("items_compared", "pushback_walks")
 
 FREE_LAYOUTS = [
     dict(p_cont=0.3, p_semi=0.15, comments=True, p_blank=0.08, p_str_split=0.08, indent="random", max_breaks=3),
-    dict(p_cont=0.5, p_semi=0.0, comments=True, p_blank=0.05, p_str_split=0.15, p_lead_amp=0.3, indent="depth", max_breaks=4),
+    dict(p_cont=0.5, p_semi=0.0, comments=True, p_blank=0.05, p_str_split=0.15, p_lead_amp=0.3, indent="depth", max_breaks=4, p_tok_split=0.03),
     dict(p_cont=0.1, p_semi=0.3, comments=False, p_blank=0.1, indent="random", p_trailing_semi=0.1),
 ]
 FIXED_LAYOUTS = [
